@@ -165,7 +165,16 @@ Qed.
 
 Definition params_ok (p : params) : Prop := 0 <= p_share p <= PREC.
 Definition fee_ok (fee : coins) : Prop := Forall (fun c => 0 <= snd c) fee.
-Definition env_ok (E : env) : Prop := In (e_collector E) (e_blocked E) /\ e_allowed_once E = true.
+
+(** ModuleParams.Sanitize keeps the meaning of every valid parameter value — discharged for the
+    rules extracted from /repo by [Gen.C18Oblig.C18_sanitize_keeps_the_meaning_of_params] *)
+Definition san_ok (E : env) : Prop := forall p, params_ok p -> params_same (sanitize E p) p.
+
+Definition env_ok (E : env) : Prop :=
+  In (e_collector E) (e_blocked E) /\ e_allowed_once E = true /\ san_ok E.
+
+(** the stored item means what was set, and what was set is valid *)
+Definition store_ok (st : state) : Prop := params_ok (s_params st) /\ params_same (s_store st) (s_params st).
 
 (** per-recipient amount the ante part pays in denom [d] *)
 Definition q_model (E : env) (p : params) (t : txin) (n : nat) (d : denom) : Z :=
@@ -222,7 +231,7 @@ Lemma ante_satisfies_P_pay E p R b t b' :
   ante E p R b t = Some b' ->
   P_pay E p (reg_lookup R) t (fun a d => b' a d - b a d).
 Proof.
-  intros [HE Honce] Hp Hf H. destruct (ante_effect _ _ _ _ _ _ H) as [Hbl Hform].
+  intros (HE & Honce & _) Hp Hf H. destruct (ante_effect _ _ _ _ _ _ H) as [Hbl Hform].
   unfold P_pay. cbv zeta. split.
   - intro Hin. specialize (Hbl _ Hin). apply mem_false_notin in Hbl. apply Hbl. exact HE.
   - exists (q_model E p t (length (eff_recipients p (reg_lookup R) (t_msgs t)))).
@@ -235,6 +244,21 @@ Proof.
     + intro d. destruct (q_model_props E p t (length (eff_recipients p (reg_lookup R) (t_msgs t))) d Honce Hp Hf) as (B0 & B & _).
       pose proof (allowed_amount_le p (t_fee t) d Hf). pose proof (allowed_amount_nonneg p (t_fee t) d Hf).
       unfold params_ok in Hp. pose proof PREC_HALF. pose proof HALF_pos. nia.
+Qed.
+
+(** nothing but the fee moves when fee sharing is off or no top-level executed contract is registered *)
+Lemma nothing_when_disabled_or_unregistered_ante E p R b t b' :
+  ante E p R b t = Some b' ->
+  p_enabled p = false \/ recipients (reg_lookup R) (t_msgs t) = [] ->
+  forall a d, b' a d - b a d =
+              (if Nat.eqb a (e_collector E) then amount_of (t_fee t) d else 0)
+              - (if Nat.eqb a (t_signer t) then amount_of (t_fee t) d else 0).
+Proof.
+  intros H Hc. destruct (ante_effect _ _ _ _ _ _ H) as [_ Hf]. intros a d. rewrite Hf.
+  assert (Hrc : eff_recipients p (reg_lookup R) (t_msgs t) = []).
+  { unfold eff_recipients. destruct Hc as [-> | ->]; [reflexivity|]. destruct (p_enabled p); reflexivity. }
+  rewrite Hrc. unfold pay_formula. simpl.
+  destruct (Nat.eqb a (e_collector E)), (Nat.eqb a (t_signer t)); lia.
 Qed.
 
 (* ------------------------------------------------------------------ registry part *)
@@ -328,20 +352,45 @@ Qed.
 
 Definition delta (st st' : state) : addr -> denom -> Z := fun a d => s_bank st' a d - s_bank st a d.
 
-Theorem tx_satisfies_property E st t scope :
-  env_ok E -> params_ok (s_params st) -> fee_ok (t_fee t) ->
-  P_tx E (s_params st) (s_wasm st) (reg_lookup (s_reg st)) t
+Lemma params_ok_same p q : params_same p q -> params_ok q -> params_ok p.
+Proof. intros (_ & H & _). unfold params_ok. rewrite H. auto. Qed.
+
+(** what the code reads (Sanitize of the stored item) means what was set *)
+Lemma read_params_same E st : san_ok E -> store_ok st -> params_same (read_params E st) (s_params st).
+Proof.
+  intros HS [Hp Hsame]. unfold read_params.
+  eapply params_same_trans; [|exact Hsame]. apply HS. eapply params_ok_same; eassumption.
+Qed.
+
+(** the property of one transaction, read against the parameters the code reads *)
+Lemma tx_satisfies_property_as_read E st t scope :
+  env_ok E -> params_ok (read_params E st) -> fee_ok (t_fee t) ->
+  P_tx E (read_params E st) (s_wasm st) (reg_lookup (s_reg st)) t
        (x_class (snd (step_tx E st t))) (delta st (fst (step_tx E st t)))
        (reg_lookup (s_reg (fst (step_tx E st t)))) scope.
 Proof.
-  intros HE Hp Hf. unfold step_tx, P_tx.
-  destruct (ante E (s_params st) (s_reg st) (s_bank st) t) as [b'|] eqn:Ha.
+  intros HE Hp Hf. unfold step_tx, P_tx. cbv zeta.
+  destruct (ante E (read_params E st) (s_reg st) (s_bank st) t) as [b'|] eqn:Ha.
   - pose proof (ante_satisfies_P_pay _ _ _ _ _ _ HE Hp Hf Ha) as HP.
-    destruct (run_msgs E (s_params st) (s_wasm st) (t_signer t) (s_reg st) (t_msgs t)) as [R'|e] eqn:Hm; simpl.
+    destruct (run_msgs E (read_params E st) (s_wasm st) (t_signer t) (s_reg st) (t_msgs t)) as [R'|e] eqn:Hm; simpl.
     + split; [exact HP|]. intros c _ Hne. split; [reflexivity|].
       exact (run_msgs_inv _ _ _ _ _ _ _ _ (reg_inv_refl _ _ _ _) Hm c Hne).
     + split; [exact HP|]. intros c _ Hne. contradiction.
   - simpl. split; [intros a d; unfold delta; lia|reflexivity].
+Qed.
+
+(** … and against the parameters AS SET by the last accepted update / genesis *)
+Theorem tx_satisfies_property E st t scope :
+  env_ok E -> store_ok st -> fee_ok (t_fee t) ->
+  P_tx E (s_params st) (s_wasm st) (reg_lookup (s_reg st)) t
+       (x_class (snd (step_tx E st t))) (delta st (fst (step_tx E st t)))
+       (reg_lookup (s_reg (fst (step_tx E st t)))) scope.
+Proof.
+  intros HE Hst Hf. pose proof HE as (_ & _ & HS).
+  pose proof (read_params_same E st HS Hst) as Hsame.
+  eapply P_tx_same; [exact Hsame|].
+  apply tx_satisfies_property_as_read; auto.
+  eapply params_ok_same; [exact Hsame|apply Hst].
 Qed.
 
 Definition event_ok (ev : event) : Prop :=
@@ -358,13 +407,26 @@ Definition transition_ok (E : env) (tr : state * txin * state * txout) : Prop :=
   forall scope, P_tx E (s_params st) (s_wasm st) (reg_lookup (s_reg st)) t (x_class out) (delta st st')
                      (reg_lookup (s_reg st')) scope.
 
-Lemma step_tx_params E st t : s_params (fst (step_tx E st t)) = s_params st.
+Lemma step_tx_params E st t :
+  s_params (fst (step_tx E st t)) = s_params st /\ s_store (fst (step_tx E st t)) = s_store st.
 Proof.
-  unfold step_tx. destruct (ante _ _ _ _ _); [|reflexivity]. destruct (run_msgs _ _ _ _ _ _); reflexivity.
+  unfold step_tx. cbv zeta. destruct (ante _ _ _ _ _); [|split; reflexivity].
+  destruct (run_msgs _ _ _ _ _ _); split; reflexivity.
+Qed.
+
+Lemma step_tx_store_ok E st t : store_ok st -> store_ok (fst (step_tx E st t)).
+Proof. unfold store_ok. destruct (step_tx_params E st t) as [-> ->]. auto. Qed.
+
+(** parameter changes (MsgUpdateParams, genesis) keep "the stored item means what was set" *)
+Lemma step_env_store_ok E st o : san_ok E -> store_ok st -> store_ok (step_env E st o).
+Proof.
+  intros HS Hst. destruct o as [p'|p'| |]; simpl; auto.
+  - destruct (params_valid p') eqn:Hv; [|exact Hst]. split; simpl; [apply params_valid_ok; exact Hv|apply params_same_refl].
+  - destruct (params_valid p') eqn:Hv; [|exact Hst]. apply params_valid_ok in Hv. split; simpl; [exact Hv|apply HS; exact Hv].
 Qed.
 
 Theorem history_satisfies_property E : forall evs st,
-  env_ok E -> params_ok (s_params st) -> Forall event_ok evs ->
+  env_ok E -> store_ok st -> Forall event_ok evs ->
   Forall (transition_ok E) (transitions E st evs).
 Proof.
   induction evs as [|ev evs IH]; intros st HE Hp Hev; simpl; [constructor|].
@@ -372,14 +434,62 @@ Proof.
   destruct ev as [t|o].
   - destruct (step_tx E st t) as [st' out] eqn:Hst. constructor.
     + intro scope. pose proof (tx_satisfies_property E st t scope HE Hp H1) as HP. rewrite Hst in HP. exact HP.
-    + apply IH; auto. pose proof (step_tx_params E st t) as Hpp. rewrite Hst in Hpp. simpl in Hpp. rewrite Hpp. exact Hp.
-  - apply IH; auto. destruct o as [p'| |]; simpl; auto.
-    destruct (params_valid p') eqn:Hv; [simpl; apply params_valid_ok; exact Hv|exact Hp].
+    + apply IH; auto. pose proof (step_tx_store_ok E st t Hp) as Hpp. rewrite Hst in Hpp. exact Hpp.
+  - apply IH; auto. apply step_env_store_ok; [apply HE|exact Hp].
+Qed.
+
+(** along every history the stored item keeps meaning what was last set (and that is valid) *)
+Lemma history_keeps_store_ok E : forall evs st,
+  san_ok E -> store_ok st -> store_ok (fold_left (step E) evs st).
+Proof.
+  induction evs as [|ev evs IH]; intros st HS Hst; simpl; [exact Hst|].
+  apply IH; [exact HS|]. destruct ev as [t|o]; simpl.
+  - apply step_tx_store_ok. exact Hst.
+  - apply step_env_store_ok; assumption.
 Qed.
 
 (** environment operations and failing transactions never change the registry *)
-Lemma env_keeps_registry st o : s_reg (step_env st o) = s_reg st.
-Proof. destruct o as [p'| |]; simpl; try reflexivity. destruct (params_valid p'); reflexivity. Qed.
+Lemma env_keeps_registry E st o : s_reg (step_env E st o) = s_reg st.
+Proof. destruct o as [p'|p'| |]; simpl; try reflexivity; destruct (params_valid p'); reflexivity. Qed.
+
+(* ------------------------------------------------------------------ fee sharing disabled AS SET *)
+
+Lemma run_msgs_disabled E p W s : p_enabled p = false ->
+  forall ms R R', run_msgs E p W s R ms = inl R' -> R' = R.
+Proof.
+  intro Hd.
+  assert (H1 : forall m R R', run_msg E p W s R m = inl R' -> R' = R).
+  { induction m as [c good nested|m IH|c w|c w|c|good]; intros R R' H; simpl in H; try rewrite Hd in H; simpl in H;
+      try discriminate.
+    - destruct (exec_ok W s c good nested); [|discriminate]. injection H as <-. reflexivity.
+    - eapply IH; eassumption.
+    - destruct good; [|discriminate]. injection H as <-. reflexivity. }
+  induction ms as [|m ms IH]; intros R R' H; simpl in H.
+  - injection H as <-. reflexivity.
+  - destruct (run_msg E p W s R m) as [R1|e] eqn:Hm; [|discriminate].
+    apply H1 in Hm. subst R1. eapply IH; eassumption.
+Qed.
+
+(** While the parameters AS SET say "disabled" — whatever Sanitize makes of the stored item —
+    a transaction moves nothing but its own fee (signer -> collector), and the registry is frozen. *)
+Theorem disabled_as_set_pays_nothing E st t :
+  env_ok E -> store_ok st -> fee_ok (t_fee t) -> p_enabled (s_params st) = false ->
+  (forall a d, delta st (fst (step_tx E st t)) a d =
+               if Nat.eqb (x_class (snd (step_tx E st t))) 1 then 0
+               else (if Nat.eqb a (e_collector E) then amount_of (t_fee t) d else 0)
+                    - (if Nat.eqb a (t_signer t) then amount_of (t_fee t) d else 0)) /\
+  s_reg (fst (step_tx E st t)) = s_reg st.
+Proof.
+  intros HE Hst Hf Hd. pose proof HE as (_ & _ & HS).
+  pose proof (read_params_same E st HS Hst) as (Hen & _ & _). rewrite Hd in Hen.
+  unfold step_tx. cbv zeta.
+  destruct (ante E (read_params E st) (s_reg st) (s_bank st) t) as [b'|] eqn:Ha.
+  - pose proof (nothing_when_disabled_or_unregistered_ante E _ _ _ _ _ Ha (or_introl Hen)) as Hn.
+    destruct (run_msgs E (read_params E st) (s_wasm st) (t_signer t) (s_reg st) (t_msgs t)) as [R'|e] eqn:Hm; simpl.
+    + split; [intros a d; unfold delta; simpl; apply Hn|]. eapply run_msgs_disabled; eassumption.
+    + split; [intros a d; unfold delta; simpl; apply Hn|reflexivity].
+  - simpl. split; [intros a d; unfold delta; lia|reflexivity].
+Qed.
 
 (* ------------------------------------------------------------------ named consequences *)
 
@@ -404,13 +514,7 @@ Lemma nothing_when_disabled_or_unregistered E p R b t b' :
   forall a d, b' a d - b a d =
               (if Nat.eqb a (e_collector E) then amount_of (t_fee t) d else 0)
               - (if Nat.eqb a (t_signer t) then amount_of (t_fee t) d else 0).
-Proof.
-  intros H Hc. destruct (ante_effect _ _ _ _ _ _ H) as [_ Hf]. intros a d. rewrite Hf.
-  assert (Hrc : eff_recipients p (reg_lookup R) (t_msgs t) = []).
-  { unfold eff_recipients. destruct Hc as [-> | ->]; [reflexivity|]. destruct (p_enabled p); reflexivity. }
-  rewrite Hrc. unfold pay_formula. simpl.
-  destruct (Nat.eqb a (e_collector E)), (Nat.eqb a (t_signer t)); lia.
-Qed.
+Proof. exact (nothing_when_disabled_or_unregistered_ante E p R b t b'). Qed.
 
 (** a registered contract executed only inside a carrier (authz exec) is not a recipient *)
 Lemma wrapped_execs_are_not_recipients rl ms :
@@ -501,8 +605,24 @@ Qed.
     commit getAllowedFees counted that fee coin once per entry and the payout exceeded
     DeveloperShares × fee by far more than the rounding allowance (share 1, fee 100, one recipient:
     200 paid).  With the current code (first match only) the same input pays 100. *)
-Definition env_before_fix : env := {| e_collector := 0%nat; e_gov := 1%nat; e_blocked := [0%nat; 2%nat]; e_allowed_once := false |}.
-Definition env_current : env := {| e_collector := 0%nat; e_gov := 1%nat; e_blocked := [0%nat; 2%nat]; e_allowed_once := true |}.
+(** types.DefaultParams() and ModuleParams.Sanitize of the pinned tree: an empty AllowedDenoms is
+    replaced by DefaultAllowedDenoms (= empty: all denoms) — the identity on the model's values *)
+Definition module_defaults : params := {| p_enabled := true; p_share := HALF; p_allowed := [] |}.
+Definition san_current : list san_rule :=
+  [{| sr_cond := PcAllowedEmpty; sr_on_copy := true; sr_set := [FAllowed]; sr_stop := false |}].
+
+Definition env_before_fix : env :=
+  {| e_collector := 0%nat; e_gov := 1%nat; e_blocked := [0%nat; 2%nat]; e_allowed_once := false;
+     e_defaults := module_defaults; e_san := san_current |}.
+Definition env_current : env :=
+  {| e_collector := 0%nat; e_gov := 1%nat; e_blocked := [0%nat; 2%nat]; e_allowed_once := true;
+     e_defaults := module_defaults; e_san := san_current |}.
+
+Lemma san_ok_current : san_ok env_current.
+Proof. intros [en sh [|d al]] _; apply params_same_refl. Qed.
+
+Lemma env_ok_current : env_ok env_current.
+Proof. split; [simpl; auto|]. split; [reflexivity|exact san_ok_current]. Qed.
 Definition dup_params : params := {| p_enabled := true; p_share := PREC; p_allowed := [0%nat; 0%nat] |}.
 Definition dup_tx : txin := {| t_signer := 3%nat; t_fee := [(0%nat, 100)]; t_msgs := [MExec 8%nat true None] |}.
 
@@ -528,7 +648,8 @@ Definition ex_wasm : wasm :=
    (10%nat, {| ci_creator := 3%nat; ci_admin := Some 1%nat; ci_owner := None |})].
 Definition ex_bank : bank := fun a d => if Nat.eqb a 0 then 1000 else if Nat.eqb a 5 then 1000000 else 0.
 Definition ex_state : state :=
-  {| s_params := {| p_enabled := true; p_share := PREC; p_allowed := [] |}; s_wasm := ex_wasm;
+  {| s_params := {| p_enabled := true; p_share := PREC; p_allowed := [] |};
+     s_store := {| p_enabled := true; p_share := PREC; p_allowed := [] |}; s_wasm := ex_wasm;
      s_reg := [(8%nat, {| fs_deployer := 3%nat; fs_withdrawer := 6%nat |});
                (9%nat, {| fs_deployer := 4%nat; fs_withdrawer := 7%nat |})];
      s_bank := ex_bank |}.
@@ -536,14 +657,14 @@ Definition ex_state : state :=
 Definition ex_tx : txin := {| t_signer := 5%nat; t_fee := [(2%nat, 3)]; t_msgs := [MExec 8%nat true None; MExec 9%nat true None] |}.
 
 Example payout_nonvacuous :
-  env_ok ex_env /\ params_ok (s_params ex_state) /\ fee_ok (t_fee ex_tx) /\
+  env_ok ex_env /\ store_ok ex_state /\ fee_ok (t_fee ex_tx) /\
   x_class (snd (step_tx ex_env ex_state ex_tx)) = 0%nat /\
   delta ex_state (fst (step_tx ex_env ex_state ex_tx)) 6%nat 2%nat = 2 /\
   delta ex_state (fst (step_tx ex_env ex_state ex_tx)) 7%nat 2%nat = 2 /\
   delta ex_state (fst (step_tx ex_env ex_state ex_tx)) 0%nat 2%nat = -1.
 Proof.
-  split; [unfold env_ok; simpl; auto|].
-  split; [unfold params_ok; simpl; unfold PREC; lia|].
+  split; [exact env_ok_current|].
+  split; [split; [unfold params_ok; simpl; unfold PREC; lia|apply params_same_refl]|].
   split; [unfold fee_ok; simpl; repeat constructor; simpl; lia|]. vm_compute. repeat split; reflexivity.
 Qed.
 
@@ -556,3 +677,61 @@ Example authority_nonvacuous :
     = Some (self_entry 10%nat) /\
   x_err (snd (step_tx ex_env ex_state {| t_signer := 5%nat; t_fee := []; t_msgs := [MRegister 10%nat 6%nat] |})) = E_BADWITHDRAWER.
 Proof. vm_compute. repeat split; reflexivity. Qed.
+
+(* ------------------------------------------------------------------ parameters in the history *)
+
+(** the corner "everything off": disabled, share 0, no denom list — a valid governance setting *)
+Definition all_off : params := {| p_enabled := false; p_share := 0; p_allowed := [] |}.
+
+(** the variant of ModuleParams.Sanitize that takes an all-zero value for "never written" and
+    answers DefaultParams() (seeded/C18-all-zero-params-read-as-defaults) *)
+Definition san_all_zero_is_unset : list san_rule :=
+  {| sr_cond := PcAnd (PcAnd (PcNot PcEnabled) (PcOr PcShareNil PcShareZero)) PcAllowedEmpty;
+     sr_on_copy := true; sr_set := [FEnabled; FShare; FAllowed]; sr_stop := true |} :: san_current.
+Definition env_all_zero_is_unset : env :=
+  {| e_collector := 0%nat; e_gov := 1%nat; e_blocked := [0%nat; 2%nat]; e_allowed_once := true;
+     e_defaults := module_defaults; e_san := san_all_zero_is_unset |}.
+
+Definition off_history (via_genesis : bool) : list event :=
+  [EvEnv (if via_genesis then Genesis all_off else SetParams all_off);
+   EvTx {| t_signer := 5%nat; t_fee := [(2%nat, 1000)]; t_msgs := [MExec 8%nat true None] |}].
+
+(** with the current Sanitize the history "switch everything off, then execute a registered
+    contract" pays nothing and refuses a registration … *)
+Example all_off_current_nonvacuous :
+  params_valid all_off = true /\
+  (forall g, match transitions env_current ex_state (off_history g) with
+             | [(st, _, st', out)] => p_enabled (s_params st) = false /\ x_class out = 0%nat /\
+                                     delta st st' 6%nat 2%nat = 0 /\ delta st st' 0%nat 2%nat = 1000
+             | _ => False
+             end) /\
+  x_err (snd (step_tx env_current (step_env env_current ex_state (SetParams all_off))
+                      {| t_signer := 5%nat; t_fee := []; t_msgs := [MRegister 10%nat 10%nat] |})) = E_DISABLED.
+Proof. split; [reflexivity|]. split; [intros [|]; vm_compute; repeat split; reflexivity|vm_compute; reflexivity]. Qed.
+
+(** … with the variant the all-off value is read back as the defaults: the same history pays half
+    of the fee to the withdrawer although the parameters AS SET say "disabled" — through
+    MsgUpdateParams and through genesis alike; [P_tx] against the parameters as set is false, the
+    variant's Sanitize does not keep the meaning of valid values, and registrations stay open. *)
+Lemma all_zero_params_read_as_defaults_refuted :
+  ~ san_ok env_all_zero_is_unset /\
+  (forall g, exists st t st' out,
+      transitions env_all_zero_is_unset ex_state (off_history g) = [(st, t, st', out)] /\
+      store_ok ex_state /\ fee_ok (t_fee t) /\
+      p_enabled (s_params st) = false /\ delta st st' 6%nat 2%nat = 500 /\
+      ~ transition_ok env_all_zero_is_unset (st, t, st', out)) /\
+  x_class (snd (step_tx env_all_zero_is_unset (step_env env_all_zero_is_unset ex_state (SetParams all_off))
+                        {| t_signer := 5%nat; t_fee := []; t_msgs := [MRegister 10%nat 10%nat] |})) = 0%nat.
+Proof.
+  split; [|split; [|vm_compute; reflexivity]].
+  - intro H. assert (Hp : params_ok all_off) by (unfold params_ok, all_off, PREC; simpl; lia).
+    destruct (H all_off Hp) as (He & _ & _). vm_compute in He. discriminate.
+  - intro g.
+    assert (Hok : store_ok ex_state) by (split; [unfold params_ok; simpl; unfold PREC; lia|apply params_same_refl]).
+    assert (Hfee : fee_ok [(2%nat, 1000)]) by (unfold fee_ok; repeat constructor; simpl; lia).
+    destruct g; eexists; eexists; eexists; eexists; (split; [vm_compute; reflexivity|]);
+      (split; [exact Hok|]); (split; [exact Hfee|]); (split; [reflexivity|]); (split; [vm_compute; reflexivity|]);
+      intro Htr; specialize (Htr []); unfold P_tx in Htr; simpl in Htr;
+      destruct Htr as [(_ & q & _ & Hform & _) _]; specialize (Hform 6%nat 2%nat);
+      vm_compute in Hform; discriminate.
+Qed.
